@@ -78,6 +78,9 @@ class Report:
     def known(self, entry_id: str, witness: Any) -> None:
         hit = self.known_hits.setdefault(entry_id, {"count": 0, "witness": witness})
         hit["count"] += 1
+        if os.environ.get("VERIF_DUMP_KNOWN"):          # debugging aid: every case classed as known, one JSON line each
+            with open(os.environ["VERIF_DUMP_KNOWN"], "a") as fh:
+                fh.write(json.dumps({"id": entry_id, "witness": witness}, default=str) + "\n")
 
     def violation(self, what: str, case: Any) -> str:
         """Record a violation; returns the replay path."""
